@@ -20,6 +20,7 @@ type SimMem struct {
 	Writes uint64
 	Drops  uint64
 	High   uint64 // accesses with addr >= 2^24 (observation only)
+	SizeV  uint32 // what Size() reports: the device's own business, unrelated to where it is attached
 }
 
 type MemEvent struct {
@@ -80,6 +81,6 @@ func (m *SimMem) Write(addr uint32, v byte) {
 }
 
 func (m *SimMem) Shutdown()               {}
-func (m *SimMem) Size() uint32            { return 0 }
+func (m *SimMem) Size() uint32            { return m.SizeV }
 func (m *SimMem) Clear()                  {}
 func (m *SimMem) Dump(addr uint32) []byte { return nil }
